@@ -192,3 +192,58 @@ func VerifH04d() {
 		vReach("ssl-refused")
 	}
 }
+
+// ---------------------------------------------------------------------------
+// H04f — counts that disagree (C04): a statement with 0..COLS columns; a
+// well-framed Bind carrying any number 0..COLS+1 of parameter-format codes,
+// 0..2 parameter values and any number 0..COLS+1 of result-format codes
+// (values symbolic) — including the counts the protocol does not admit
+// (neither 0, 1 nor n) — then Describe portal, Execute, Sync. Nothing may
+// crash, the connection survives to the Sync and every byte sent is
+// well-formed.
+// ---------------------------------------------------------------------------
+func VerifH04f() {
+	C := vParam("COLS", 3)
+	nc := vChoose(C + 1)
+	npf := vChoose(C + 2)
+	nv := vChoose(3)
+	nrf := vChoose(C + 2)
+	body := vCat(vCStr(nil), vCStr(nil), vU16(npf))
+	for i := 0; i < npf; i++ {
+		body = append(body, vU16(int(nondetU16()))...)
+	}
+	body = append(body, vU16(nv)...)
+	for i := 0; i < nv; i++ {
+		if nondetBool() {
+			body = append(body, 0xFF, 0xFF, 0xFF, 0xFF)
+		} else {
+			body = append(body, vU32(1)...)
+			body = append(body, nondetByte())
+		}
+	}
+	body = append(body, vU16(nrf)...)
+	for i := 0; i < nrf; i++ {
+		body = append(body, vU16(int(nondetU16()))...)
+	}
+	input := vCat(vMsgBytes('B', body), vMsgBytes('D', vCat([]byte{'P'}, vCStr(nil))),
+		vMsgBytes('E', vCat(vCStr(nil), vU32(0))), vMsgBytes('S', nil))
+	w := vNewWorld(input, 128)
+	w.execMenu = 1
+	vAssert("set-ok", w.ses.Statements.Set(w.ctx, "", w.mkStmt(nc, 0)) == nil)
+	for k := 0; k < 4; k++ {
+		_, err := w.step()
+		vAssert("connection-stays-up", err == nil)
+	}
+	out := vTypes(w.conn.out)
+	vAssert("wire-wellformed", vWireOK(w.conn.out))
+	vAssert("one-ready-for-query-at-the-end", vCount(out, 'Z') == 1 && len(out) > 0 && out[len(out)-1] == 'Z')
+	if nrf >= 2 && nrf < nc {
+		vReach("fewer-result-formats-than-columns")
+	}
+	if nrf > nc {
+		vReach("more-result-formats-than-columns")
+	}
+	if npf > nv {
+		vReach("more-parameter-formats-than-values")
+	}
+}
